@@ -11,15 +11,46 @@ def x_db_store():
     if not m:
         raise Broken("db.go: func Open not found")
     o = m.group(1)
-    mo = re.search(r'db, err := badger\.Open\((badger\.DefaultOptions\(path\)[^\n]*)\)\n'
-                   r'(\s*if err != nil \{\n(?:\s*//[^\n]*\n)*\s*db, err = badger\.Open\((badger\.DefaultOptions\(path\)[^\n]*)\)\n\s*\}\n)?'
-                   r'\s*if err != nil \{\s*return nil, fmt\.Errorf\("failed to open database: %w", err\)\s*\}\s*return &Database\{\s*db: db,\s*\}, nil', o)
-    if not mo:
-        raise Broken("db.go: Open is no longer `badger.Open(badger.DefaultOptions(path)...)` (optionally tried once more) with the error returned")
-    if mo.group(2) and mo.group(3) != mo.group(1):
-        raise Broken("db.go: Open retries with different options")
-    info["open_retries_once"] = bool(mo.group(2))
-    opts = mo.group(1)
+    # shapes understood: plain Open; Open tried once more; a loop of `attempts` tries with attempts = emptyLogFiles(path) + N
+    # or a constant
+    TAIL = r'\s*if err != nil \{\s*return nil, fmt\.Errorf\("failed to open database: %w", err\)\s*\}\s*return &Database\{\s*db: db,\s*\}, nil'
+    OPTS = r'(badger\.DefaultOptions\(path\)[^\n]*?)'
+    code_o = re.sub(r'//[^\n]*', '', o)
+    m1 = re.fullmatch(r'\s*db, err := badger\.Open\(' + OPTS + r'\)\n' + TAIL + r'\s*', code_o)
+    m2 = re.fullmatch(r'\s*db, err := badger\.Open\(' + OPTS + r'\)\n\s*if err != nil \{\s*db, err = badger\.Open\(' + OPTS + r'\)\s*\}\n' + TAIL + r'\s*', code_o)
+    m3 = re.fullmatch(r'\s*(\w+) := ([^\n]+)\n\s*var db \*badger\.DB\n\s*var err error\n\s*for (\w+) := 0; \3 < \1; \3\+\+ \{\s*if db, err = badger\.Open\(' + OPTS
+                      + r'\); err == nil \{\s*break\s*\}\s*\}\n' + TAIL + r'\s*', code_o)
+    m4 = re.fullmatch(r'\s*var \(\s*db\s+\*badger\.DB\s*err\s+error\s*\)\s*for (\w+) := 0; \1 < (\w+); \1\+\+ \{\s*if db, err = badger\.Open\(' + OPTS
+                      + r'\); err == nil \{\s*break\s*\}\s*\}\n' + TAIL + r'\s*', code_o)
+    if m1:
+        opts, attempts, how = m1.group(1), "1", "one attempt"
+    elif m2:
+        if m2.group(1) != m2.group(2):
+            raise Broken("db.go: Open retries with different options")
+        opts, attempts, how = m2.group(1), "2", "tried once more"
+    elif m3:
+        opts = m3.group(4)
+        me = re.fullmatch(r'emptyLogFiles\(path\) \+ (\d+)', m3.group(2).strip())
+        mc = re.fullmatch(r'(\d+)', m3.group(2).strip())
+        if me:
+            cnt = re.search(r'func emptyLogFiles\(path string\) int \{(.*?)\n\}', db, re.S)
+            if not cnt or not re.search(r'ext == "\.mem" \|\| ext == "\.vlog"', cnt.group(1)) or not re.search(r'fi\.Size\(\) == 0 \{\s*n\+\+', cnt.group(1)) \
+               or not re.search(r'os\.ReadDir\(path\)', cnt.group(1)):
+                raise Broken("db.go: emptyLogFiles no longer counts the zero-length .mem and .vlog files of the directory")
+            attempts, how = "empty_files + %s" % me.group(1), "one attempt per empty log file + %s" % me.group(1)
+        elif mc:
+            attempts, how = mc.group(1), "%s attempts" % mc.group(1)
+        else:
+            raise Broken("db.go: Open: number of attempts %r not understood" % m3.group(2))
+    elif m4:
+        opts = m4.group(3)
+        mk = re.search(r'const %s = (\d+)' % re.escape(m4.group(2)), db)
+        if not mk:
+            raise Broken("db.go: Open: loop bound %s is not a numeric constant" % m4.group(2))
+        attempts, how = mk.group(1), "%s attempts" % mk.group(1)
+    else:
+        raise Broken("db.go: Open is no longer `badger.Open(badger.DefaultOptions(path)...)` (once, once more, or in a loop of attempts) with the error returned")
+    info["open_attempts"] = how
     info["open_options"] = opts
     default = opts == "badger.DefaultOptions(path)"
     sync = bool(re.search(r'\.WithSyncWrites\(true\)', opts))
@@ -54,6 +85,8 @@ def x_db_store():
     out += "Definition db_store_panics_unsigned : bool := %s.\n" % ("true" if panics else "false")
     out += "Definition db_store_error_propagated : bool := %s.\n" % ("true" if propagated else "false")
     out += "Definition db_open_sync_writes : bool := %s.\n" % ("true" if sync else "false")
+    out += "(* db.go Open: %s; empty_files = zero-length .mem / .vlog files in the directory *)\n" % how
+    out += "Definition db_open_attempts (empty_files : Z) : Z := %s.\n" % attempts
     return out, info
 
 
